@@ -514,6 +514,78 @@ example : SmallOp (.recreate 0 5 3 16 none none 1) ∧ SmallOp (.dims 1 2 32 8 8
 
 
 
+/-! ### slots without an organisation are never occupied; balance of the printed allocator log -/
+
+/-- slots without an organisation (the scratch slot included) are never occupied, after ANY history from the empty world that did not stop
+    in an assertion failure -- the side condition `hfree` of C10_balanced is a theorem -/
+theorem C10_unorganised_slots_free (c : Cfg) (fa fc : Option Nat) (ops : List Op) (hna : asserted c (World.init fa fc) ops = false) :
+    ∀ x, c.orgOf x = none → (run c (World.init fa fc) ops).imgs x = none :=
+  run_orgfree c ops (World.init fa fc) (fun _ _ => rfl) hna
+
+/-- log-level balance from heap-level balance: if the heap is the replay of the log and every block was released exactly once and is not
+    flagged, the Spec's replay of the printed log succeeds and leaves nothing allocated -/
+private theorem logBalanced_of_heap (wf : World) (hl : HeapLog wf)
+    (hbal : ∀ (b : Nat) (blk : Block), wf.heap[b]? = some blk → blk.freed = 1 ∧ blk.bad = false) : logBalanced wf.log = true := by
+  unfold logBalanced
+  have key := replayLog_of_no_bad wf.log.reverse [] (by intro g hg; cases hg) ?_
+  · simp only [List.map_nil] at key
+    rw [key]
+    simp only [List.all_eq_true]
+    intro p hp
+    have hl' : wf.heap.map Block.strip = List.foldl ghostStep [] wf.log.reverse := hl
+    rw [← hl'] at hp
+    simp only [List.map_map, List.mem_map] at hp
+    obtain ⟨blk, hblk, rfl⟩ := hp
+    obtain ⟨i, hi⟩ := List.getElem?_of_mem hblk
+    have := (hbal i blk hi).1
+    simp [GBlock.abs, Block.strip, this]
+  · intro g hg
+    have hl' : wf.heap.map Block.strip = List.foldl ghostStep [] wf.log.reverse := hl
+    rw [← hl'] at hg
+    obtain ⟨blk, hblk, rfl⟩ := List.mem_map.mp hg
+    obtain ⟨i, hi⟩ := List.getElem?_of_mem hblk
+    exact (hbal i blk hi).2
+
+/-- LOG-LEVEL balance: for every history of any length from the empty world, under any armed allocation / construction fault, that keeps the
+    hypotheses of C10_history and does not stop in an assertion failure (the process would be gone), after the destructors of all slots
+    have run the PRINTED allocator log -- replayed by the Spec's `replayLog` exactly as the judge replays the real allocator's log --
+    is well formed and leaves nothing allocated: every allocate is matched by exactly one deallocate of the same id, size and allocator -/
+theorem C10_log_balanced (c : Cfg) (hsafe : SwapSafe c) (fa fc : Option Nat) (ops : List Op)
+    (hok : RecreateOKRun c (World.init fa fc) ops) (hna : asserted c (World.init fa fc) ops = false) :
+    logBalanced (run c (World.init fa fc) (ops ++ [.stop])).log = true := by
+  rw [run_snoc_stop c ops _ hna]
+  have hinv := C10_history c hsafe ops (World.init fa fc) (C10_init c fa fc) rfl hok
+  have hfree := C10_unorganised_slots_free c fa fc ops hna
+  have hbal := C10_balanced c _ hinv hfree
+  have hl : HeapLog (step c (run c (World.init fa fc) ops) .stop).1 := hl_step c _ .stop (hl_run c ops _ rfl)
+  exact logBalanced_of_heap _ hl (fun b blk hb => ⟨(hbal b blk hb).1, (hbal b blk hb).2.1⟩)
+
+/-- the same for pixel images with NO run-time side condition (static bound on the explicit dimensions / alignments, any allocation fault,
+    both source variants of allocate_ / move_assign) -/
+theorem C10_log_balanced_pixel_images (c : Cfg) (hsafe : SwapSafe c) (horg : ∀ s o, c.orgOf s = some o → o.nontrivial = false ∧ OrgSmall o)
+    (fa fc : Option Nat) (ops : List Op) (hops : ∀ op ∈ ops, SmallOp op) (hna : asserted c (World.init fa fc) ops = false) :
+    logBalanced (run c (World.init fa fc) (ops ++ [.stop])).log = true := by
+  rw [run_snoc_stop c ops _ hna]
+  have hinv := C10_history_pixel_images c hsafe horg ops hops (World.init fa fc) (C10_init c fa fc) rfl (by intro s i hs; cases hs)
+  have hfree := C10_unorganised_slots_free c fa fc ops hna
+  have hbal := C10_balanced c _ hinv hfree
+  have hl : HeapLog (step c (run c (World.init fa fc) ops) .stop).1 := hl_step c _ .stop (hl_run c ops _ rfl)
+  exact logBalanced_of_heap _ hl (fun b blk hb => ⟨(hbal b blk hb).1, (hbal b blk hb).2.1⟩)
+
+private def seRgbX : Cfg := { pocma := false, pocs := false, empty := true, ntags := 0, ndebug := false, org := { mstep := 3, b2m := 1, chans := 3, planar := false, nontrivial := false, pixel := true }, porg := none }
+
+example : asserted seRgbX (World.init (some 2) none) [.dims 0 0 0 3 2 7, .copy 1 0, .recreate 0 8 8 16 none none 3, .massign 1 0] = false
+    ∧ (run seRgbX (World.init (some 2) none) [.dims 0 0 0 3 2 7, .copy 1 0, .recreate 0 8 8 16 none none 3, .massign 1 0, .stop]).log.length = 4
+    ∧ (∀ op ∈ [Op.dims 0 0 0 3 2 7, .copy 1 0, .recreate 0 8 8 16 none none 3, .massign 1 0], SmallOp op) := by
+  refine ⟨by decide +kernel, by decide +kernel, ?_⟩
+  intro op hop
+  simp only [List.mem_cons, List.mem_nil_iff, or_false] at hop
+  rcases hop with rfl | rfl | rfl | rfl
+  · exact ⟨by unfold DB Bound; omega, by unfold DB Bound; omega⟩
+  · trivial
+  · refine ⟨?_, ?_, ?_⟩ <;> first | (unfold DB Bound; omega) | (intro W H a h; exact ⟨h.1, h.2.1, by unfold Bound; omega⟩)
+  · trivial
+
 /-! ### recreate: dimensions, alignment of the view, reuse of storage -/
 
 /-- The reuse branch of recreate (`stepRec` takes it exactly when `_allocated_bytes ≥ total_allocated_size_in_bytes(dims)` under the
